@@ -215,7 +215,37 @@ def gen_cases(ctx, scale=1.0):
         if "/" in v and rng.random() < 0.7:
             v = v.replace("/", "a")
         cases.append(scalar_case(rng, v))
+    # tilde prefixes whose target (HOME, PWD, OLDPWD) holds blanks, glob characters, newlines
+    for _ in range(int((1500 if ctx.quick else 12000) * scale)):
+        cases.append(X.gen_tilde_case(rng, IFSES, OPTSETS, DIRS))
+    # long multi-byte values through command substitution: lengths around 4096 / 8192 / 65536 bytes with a
+    # multi-byte character straddling those offsets
+    cases += long_cmdsub_cases(rng, quick=ctx.quick)
     return cases, exhaustive_n
+
+
+UNITS = ["€uro-ß-日本-", "é", "日本", "a€", "ß€日𝄞"]
+
+
+def long_cmdsub_cases(rng, quick=True):
+    out = []
+    targets = [4096, 8192, 16384, 65536] if quick else [4096, 8192, 16384, 32768, 65536, 131072, 262144]
+    for tb in targets:
+        for unit in UNITS:
+            ub = len(unit.encode("utf-8"))
+            for pad in (0, 1, 2):                       # shift the phase so that some character straddles the offset
+                k = tb // ub + 3
+                v = "a" * pad + unit * k
+                tname = rng.choice(["dq_cmd", "dq_cmd", "dq_cmdnl"])
+                _n, word, spec = next(t for t in SCALAR_T if t[0] == tname)
+                cx = rng.choice(["arg", "assign", "herestr"])
+                c = X.Case(cx, word, ifs=rng.choice(IFSES), opts="", vars=[("x", v), ("HOME", "/hm")], names=[],
+                           cmd_out={CMD: v, CMDNL: v + "\n\n"}, tag="long_" + tname)
+                c.expected = ("OK", [v + "\n"]) if cx == "herestr" else ("OK", [v])
+                c.value = v
+                c.nomodel = len(v) > 9000          # the model's list functions are quadratic: differential-only beyond
+                out.append(c)
+    return out
 
 
 MODEL_CTX = ("arg", "arrelem", "assign", "herestr", "redir")
@@ -225,7 +255,7 @@ def evaluate(ctx, cases, use_bash_n=0):
     """runs code (+ model where the context is modelled), returns (mismatches, violations, stats)"""
     subs, problems = X.check_parse_and_resolve(ctx, cases)
     impl = X.impl(ctx, "xp", [c.impl_fields() for c in cases])
-    midx = [i for i, c in enumerate(cases) if c.ctx in MODEL_CTX]
+    midx = [i for i, c in enumerate(cases) if c.ctx in MODEL_CTX and not getattr(c, "nomodel", False)]
     mfields = [cases[i].model_fields(subs[i]) for i in midx]
     model = ctx.model("xp", mfields)
     mres = dict(zip(midx, model))
@@ -244,7 +274,10 @@ def evaluate(ctx, cases, use_bash_n=0):
         stats["by_ifs"][k] = stats["by_ifs"].get(k, 0) + 1
         if cr[0] == "ERR":
             stats["code_err"] += 1
-        desc = {"ctx": c.ctx, "word": c.text, "value": c.value, "ifs": c.ifs, "opts": c.opts, "ref": c.ref,
+        shown = c.value if not isinstance(c.value, str) or len(c.value) < 200 else \
+            "%r... (%d chars, %d bytes)" % (c.value[:40], len(c.value), len(c.value.encode("utf-8")))
+        desc = {"ctx": c.ctx, "word": c.text, "value": shown, "ifs": c.ifs, "opts": c.opts, "ref": c.ref,
+                "vars": [(n, v) for n, v in c.vars if n != "x"] if c.tag == "tilde" else None, "cwdsub": c.cwdsub,
                 "dir": c.names if len(c.names) < 8 else "DIRS[0]", "template": c.tag}
         if i in mres:
             mr = X.decode_result(mres[i])
@@ -262,7 +295,15 @@ def evaluate(ctx, cases, use_bash_n=0):
         if exp is not None:
             stats["spec_checked"] += 1
             if cr != exp:
-                v = {"input": desc, "why": "expected %r, code gave %r" % (exp, cr), "impl_fields": c.impl_fields()}
+                why = "expected %s, code gave %s" % (repr(exp)[:300], repr(cr)[:300])
+                if exp[0] == "OK" and cr[0] == "OK" and len(exp[1]) == len(cr[1]) == 1 and len(exp[1][0]) > 200:
+                    a, b = exp[1][0], cr[1][0]
+                    k = next((i for i in range(min(len(a), len(b))) if a[i] != b[i]), min(len(a), len(b)))
+                    why = "first difference at character %d (byte %d): expected %r..., code gave %r... (lengths %d / %d)" % (
+                        k, len(a[:k].encode("utf-8")), a[k:k + 8], b[k:k + 8], len(a), len(b))
+                v = {"input": desc, "why": why}
+                if len(c.text) < 500 and not getattr(c, "nomodel", False):
+                    v["impl_fields"] = c.impl_fields()
                 if getattr(c, "kf", None):
                     v["known"] = c.kf
                 specv.append(v)
@@ -318,8 +359,97 @@ def classify_bash_diff(c, cr, b):
 
 
 def globby(c):
+    if c.tag == "tilde":
+        return False
     v = c.value if isinstance(c.value, str) else ""
     return "f" not in c.opts and any(ch in v for ch in "*?[\\(")     # "(": bash's extglob-opener heuristics
+
+
+# ---------------------------------------------------------------- several pattern operands in ONE shell
+
+PAT_T = ["*", "a*", "?", "[ab]", "abc", "*c", "a?c", "x", "a", "*=*", "??"]
+
+
+def pattern_seq_case(rng):
+    """2-4 uses of pattern operands ([[ == ]], case, ${v#p} ${v%p}), quoted and unquoted, over values that
+    differ only by quote characters -- within one shell (anything the shell remembers between pattern
+    operations is exercised).  Quoted operands must compare literally: python oracle; everything: bash."""
+    t = rng.choice(PAT_T)
+    vals = {"q": "'" + t + "'", "y": t, "d": '"' + t + '"', "s1": "'abc'", "s2": "abc", "s3": "*=1", "s4": "a", "s5": '"abc"',
+            "s6": "'" + t + "'x", "s7": t + "x"}
+    pats = ["q", "y", "d"]
+    subs = ["s1", "s2", "s3", "s4", "s5", "s6", "s7", "q", "y", "d"]
+    ops, exp = [], []
+    n = rng.choice([2, 3, 3, 4])
+    for k in range(n):
+        kind = rng.choice(["cond", "cond", "case", "strip#", "strip%"])
+        pv = rng.choice(pats) if k else rng.choice(["q", "q", "d", "y"])      # start with the value that holds quotes
+        sv = rng.choice(subs)
+        quoted = rng.random() < (0.3 if k == 0 else 0.65)
+        P = ('"$%s"' % pv) if quoted else ("$" + pv)
+        S, Pv = vals[sv], vals[pv]
+        if kind == "cond":
+            ops.append('if [[ "$%s" == %s ]]; then zz 1; else zz 0; fi' % (sv, P))
+            exp.append(["1" if S == Pv else "0"] if quoted else None)
+        elif kind == "case":
+            ops.append('case "$%s" in %s) zz 1;; *) zz 0;; esac' % (sv, P))
+            exp.append(["1" if S == Pv else "0"] if quoted else None)
+        elif kind == "strip#":
+            ops.append('zz "${%s#%s}"' % (sv, P))
+            exp.append([S[len(Pv):] if S.startswith(Pv) else S] if quoted else None)
+        else:
+            ops.append('zz "${%s%%%s}"' % (sv, P))
+            exp.append([S[:len(S) - len(Pv)] if (S.endswith(Pv) and Pv) else S] if quoted else None)
+    c = X.Case("multi", [("T", "x")], ifs=None, opts=rng.choice(["", "", "e"]), vars=sorted(vals.items()), names=[], tag="patseq")
+    c.text = "\n".join(ops)
+    c.value = t
+    c.ops, c.exp = ops, exp
+    return c
+
+
+def split_calls(fields):
+    """[ncalls, argc, args..., ...] -> list of arg lists (None if malformed)"""
+    try:
+        n = int(fields[0]); i = 1; out = []
+        for _ in range(n):
+            k = int(fields[i]); out.append(fields[i + 1:i + 1 + k]); i += 1 + k
+        return out
+    except (ValueError, IndexError):
+        return None
+
+
+def pattern_seq_block(ctx, n):
+    cases = [pattern_seq_case(ctx.rng) for _ in range(n)]
+    impl = X.impl(ctx, "xp", [c.impl_fields() for c in cases])
+    br = X.BashRunner()
+    try:
+        bres = br.run(cases)
+    finally:
+        br.close()
+    specv = []
+    stats = {"sequences": n, "operations": sum(len(c.ops) for c in cases), "code_eq_bash": 0, "quoted_operands_checked": 0}
+    for c, il, b in zip(cases, impl, bres):
+        cr = X.decode_result(il)
+        calls = split_calls(cr[1]) if cr[0] == "OK" else None
+        desc = {"script": c.text, "vars": dict(c.vars), "opts": c.opts}
+        if calls is None or len(calls) != len(c.ops):
+            specv.append({"input": desc, "why": "the shell did not complete the %d operations: %r" % (len(c.ops), cr)})
+            continue
+        for k, (got, e) in enumerate(zip(calls, c.exp)):
+            if e is not None:
+                stats["quoted_operands_checked"] += 1
+                if got != e:
+                    specv.append({"input": desc, "why": "operation %d (%s): a quoted operand must compare literally: expected %r, code gave %r"
+                                  % (k + 1, c.ops[k], e, got)})
+                    break
+        else:
+            if b is not None and b != ("TIMEOUT",):
+                bcalls = split_calls(b[1]) if b[0] == "OK" else None
+                if bcalls == calls:
+                    stats["code_eq_bash"] += 1
+                else:
+                    specv.append({"input": desc, "why": "bash gives %r, code gave %r" % (bcalls, calls)})
+    return specv, stats
 
 
 def nontrivial(c):
@@ -331,8 +461,9 @@ def run(ctx):
     cases, exhaustive_n = gen_cases(ctx)
     mism, specv, stats, code_results, mfields, midx, model = evaluate(ctx, cases)
     # second opinion for the unquoted templates: bash
-    unq = [i for i, c in enumerate(cases) if c.tag.startswith("unq") and c.ctx in ("arg", "arrelem")
-           and not (c.ifs is not None and any(ch not in WS for ch in c.ifs))]
+    unq = [i for i, c in enumerate(cases) if (c.tag.startswith("unq") and c.ctx in ("arg", "arrelem")
+                                              and not (c.ifs is not None and any(ch not in WS for ch in c.ifs)))
+           or c.tag == "tilde"]
     # pathname MATCHING proper is C08's subject: bash is binding here only where no glob character can
     # play (value without * ? [ \\ and extglob openers, or set -f); the rest is reported as information
     strict = [i for i in unq if not globby(cases[i])]
@@ -342,9 +473,17 @@ def run(ctx):
     svb_loose = bash_check(cases, code_results, loose, info, ctx)
     svb["with_glob_characters_informational"] = {"compared": svb_loose["compared"], "differ": svb_loose["differ"],
                                                  "examples": [v["input"] for v in info[:5]]}
+    # pattern operands in sequences within one shell (differential: python literal oracle + bash)
+    pv, pstats = pattern_seq_block(ctx, 1500 if ctx.quick else 15000)
+    specv += pv
+    stats["pattern_sequences"] = pstats
+    stats["proof_backed"] = "contexts arg/arrelem/assign/herestr/redir incl. tilde targets and command substitution up to 9000 chars: " \
+                            "model + theorems + correspondence"
+    stats["differential_only"] = "case/[[ ]] operands, pattern-operand sequences in one shell, command substitution values beyond 9000 " \
+                                 "characters (python oracle stating the property literally; bash second opinion)"
     # extraction cross-check
     k = min(40, len(mfields))
-    pick = ctx.rng.sample(range(len(mfields)), k)
+    pick = ctx.rng.sample([j for j in range(len(mfields)) if len(mfields[j]) < 400 and sum(map(len, mfields[j])) < 3000], k)
     ce = ctx.coq_eval("xp", [mfields[j] for j in pick])
     bad = [j for j, v in zip(pick, ce) if v != model[j]]
     if bad:
@@ -361,7 +500,7 @@ def run(ctx):
                 "value contains a character other than a letter; distinct by (template, context, value)."
                 % (len(ALPHABET), 3 if ctx.quick else 4, 2 if ctx.quick else 1, exhaustive_n),
         "samples": [{"ctx": c.ctx, "word": c.text, "value": c.value, "ifs": c.ifs, "opts": c.opts} for c in
-                    (cases[17], cases[exhaustive_n // 2], cases[-1])],
+                    (cases[17], cases[exhaustive_n // 2], cases[exhaustive_n + 5])],
         "distribution": stats,
         "extraction_crosscheck": {"cases": k, "agree": k - len(bad)},
         "spec_vs_bash": svb,
